@@ -169,6 +169,14 @@ func c14Run(sc *C14Scenario) *c14Outcome {
 	out.history = history
 	out.stepsApplied = mc.applied
 	for i, r := range res {
+		if _, crash := r.Panic.(simrt.CrashPanic); crash && mc.inFailingPrint {
+			// A print of IR that cannot be printed panicked, as expected — but on a
+			// goroutine the code under test had started, where the caller cannot
+			// recover it: the history ends there (nothing to compare; the statement
+			// says nothing about printing unfinished IR).
+			out.skip = "a print of unprintable IR panicked on a goroutine of the code under test (the process would have died)"
+			return out
+		}
 		if r.Panic != nil {
 			who := "builder"
 			if i == 1 {
